@@ -623,6 +623,9 @@ def parse_redial(out):
 
 
 def prop_redial(line, impl, model):
+    if impl.startswith("!aliased"):
+        return ("aliased: a packet that went through the adapter is not the value that was handed in "
+                "(the adapter kept a reference to a buffer its caller or its carrier reuses): " + impl[:60])
     if impl.startswith("!"):
         return "other: redial driver: " + impl[:200]
     toks = line.split(" ")[3].split(",")
